@@ -87,6 +87,47 @@ func GovProfile(seed int64, out *Recorder, nOps int) *Chain {
 	lastAddAlias := ""
 	var lastAddTarget sdk.AccAddress
 	certKinds := []string{"identity", "general", "auditing", "proof", "compilation", "oracleoperator", "shieldpoolcreator"}
+	// A scripted opening in every fourth history (chosen by the seed alone, no draw from the main stream): an account outside the
+	// council proposes the SAME addition to the council twice, each with a full deposit; every certifier approves both, so both are
+	// decided early in one end-blocker — the first passes, the second's handler fails although it was valid when submitted.  What
+	// becomes of the second proposal's deposits is C11's "fails" clause on a path (early decision in the certifier round) that the
+	// random part reaches rarely.
+	if seed%4 == 1 {
+		ctx := c.Ctx()
+		ck := c.App.VerifCertKeeper()
+		stk := c.App.VerifStakingKeeper()
+		proposer, target := -1, -1
+		for k := cfg.NAcc - 1; k >= 0; k-- {
+			a := c.Accts[k].Addr
+			if _, isVal := stk.GetValidator(ctx, sdk.ValAddress(a)); isVal || ck.IsCertifier(ctx, a) {
+				continue
+			}
+			if proposer < 0 {
+				proposer = k
+			} else if target < 0 {
+				target = k
+			}
+		}
+		if proposer >= 0 && target >= 0 {
+			before := len(c.App.VerifGovKeeper().GetProposals(ctx))
+			for k := 0; k < 2; k++ {
+				content := certtypes.NewCertifierUpdateProposal("t", "d", c.Accts[target].Addr, "", c.Accts[proposer].Addr, certtypes.Add)
+				c.SubmitProposal(proposer, content, D{"kind": "certifierUpdate", "certifier": Hex(c.Accts[target].Addr), "alias": "", "add": true, "contentProposer": Hex(c.Accts[proposer].Addr)}, c.Coins(minDep, Bond))
+			}
+			ps := c.App.VerifGovKeeper().GetProposals(c.Ctx())
+			for _, cf := range ck.GetAllCertifiers(c.Ctx()) {
+				ca, _ := sdk.AccAddressFromBech32(cf.Address)
+				if ci := c.idxOf(ca, -1); ci >= 0 {
+					for k := before; k < len(ps); k++ {
+						c.Vote(ci, ps[k].ProposalId, sdkgovtypes.OptionYes)
+					}
+				}
+			}
+			if !c.Advance(time.Second) {
+				return c
+			}
+		}
+	}
 	for i := 0; i < nOps && c.Halted == ""; i++ {
 		// once in a while somebody tries to pay coins into the module's account through the VM (a call carrying value): the
 		// bank refuses plain sends to module accounts, and the books of this module rely on it (own random stream)
